@@ -496,7 +496,11 @@ func TestVerifC21Handshake(t *testing.T) {
 				params.Alg = msgAlg
 			}
 		}
-		s := &vsrvScript{Cert: &cert, CompressAlg: msgAlg}
+		// with or without a CertificateRequest in front of the (compressed) certificate: the transcript order matters
+		s := &vsrvScript{Cert: &cert, CompressAlg: msgAlg, CertRequest: rapid.Bool().Draw(rt, "certificate_request")}
+		if s.CertRequest {
+			st.Class("hs-with-certificate-request")
+		}
 		s.CompressFn = func(m []byte) ([]byte, uint32) {
 			original = append([]byte(nil), m...)
 			enc = vf21CompressWith(params, m)
@@ -520,7 +524,7 @@ func TestVerifC21Handshake(t *testing.T) {
 		vsrvInstall(srv, s)
 		pair := &vfPair{CP: prep.CP, SP: prep.SP, Cli: prep.UC, Srv: srv}
 		cerr, serr := pair.Handshake()
-		desc := fmt.Sprintf("%s advertising %v (before an edit: %v) | chain of %d certs, message %d bytes | %s | fault=%s", src, algs, prevAlgs, len(cert.Certificate), len(original), enc.Settings, fault)
+		desc := fmt.Sprintf("%s advertising %v (before an edit: %v) | chain of %d certs, message %d bytes | %s | certreq=%v fault=%s", src, algs, prevAlgs, len(cert.Certificate), len(original), enc.Settings, s.CertRequest, fault)
 		st.Class("hs-fault=" + fault)
 		st.Class("hs-alg=" + map[uint16]string{1: "zlib", 2: "brotli", 3: "zstd"}[msgAlg])
 		if cerr == errVfHang || serr == errVfHang {
